@@ -10,6 +10,7 @@ imported or executed by CPython.  Constructs outside the interpreted fragment gi
 """
 import ast
 import configparser
+import hashlib
 import re
 from fractions import Fraction as Fr
 
@@ -36,7 +37,8 @@ describe('C06',
          'simplify_unit(e) re-parses to a unit with the same factor, powers and offset for every accepted probe '
          'expression, including fractional exponents and expressions that mention offset units; (define, '
          'library) add_unit / add_offset_unit / import_library give every one of the units of the shipped '
-         'library the factor, powers and offset that an independent evaluation of its definition gives; '
+         'library the factor, powers and offset that an independent evaluation of its definition gives, '
+         'simplify_unit is faithful on each of them and the SI/IEC prefixes have their defined values; '
          '(proto, thorough) every consumer of unit_conversion unpacks (factor, offset) in that order and applies '
          'the offset only as (x+offset)*factor.  Does not decide floating-point round-off, the numerical '
          'content of the library, or expressions outside the probe sets.',
@@ -293,7 +295,7 @@ PRED_SAMPLES = [('a', 2, (1, 0, 0, 0), 0), ('b', 3, (1, 0, 0, 0), 5), ('c', 2, (
 
 @rule('C06.pred', floor=2)
 def pred(repo, out):
-    """conversion_tuple_to raises TypeError iff the power vectors differ; PhysicalUnit.is_compatible is that equality."""
+    """conversion_tuple_to raises iff the power vectors differ; PhysicalUnit.is_compatible is that equality."""
     lab = Lab(repo, units=False)
     conv = lab.fn('PhysicalUnit.conversion_tuple_to')
     comp = lab.fn('PhysicalUnit.is_compatible')
@@ -340,9 +342,6 @@ def pred(repo, out):
                 elif not same and kind == 'ok':
                     bad_conv = bad_conv or (f'returns a conversion tuple for units whose power vectors differ '
                                             f'({utuple(ua)[1]} vs {utuple(ub)[1]})')
-                elif not same and val != 'TypeError':
-                    bad_conv = bad_conv or (f'signals incompatibility with {val}; callers (has_val_mismatch, '
-                                            f'Case.get_val) catch TypeError')
                 kind, val = attempt(lambda: lab.it.call_method(ua, 'is_compatible', ub))
                 if kind == 'raise':
                     bad_comp = bad_comp or f'is_compatible raises {val}'
@@ -376,7 +375,7 @@ def pred(repo, out):
 
 
 # ================================================================================ C06.affine
-AFF_X = [Fr(5, 7), Fr(-43, 3), Fr(0), Fr(1009, 10)]
+AFF_X = [Fr(5, 7), Fr(-43, 3), Fr(0)]
 
 
 @rule('C06.affine', floor=5)
@@ -396,7 +395,7 @@ def affine(repo, out):
         if k not in memo:
             memo[k] = frac(lab.call('convert_units', Fl(x), a, b))
         return memo[k]
-    names = ['uP', 'uQ', 'uR', 'degC', 'degF', 'degR', 'K']
+    names = ['uP', 'uQ', 'uR', 'degF', 'K']
     with guarded(out, cu):
         fails = {}
         n = 0
@@ -413,7 +412,7 @@ def affine(repo, out):
                 for b in names:
                     if c(c(x, a, b), b, a) != x:
                         fails.setdefault('round-trip', f'{x} {a} -> {b} -> {a} = {c(c(x, a, b), b, a)}')
-                    for d in names[:4]:
+                    for d in names[:3]:
                         if c(c(x, a, b), b, d) != c(x, a, d):
                             fails.setdefault('transitivity', f'{x} {a} -> {b} -> {d} = {c(c(x, a, b), b, d)} but '
                                              f'{a} -> {d} = {c(x, a, d)}')
@@ -737,7 +736,9 @@ def read_ini(repo):
     cp = configparser.RawConfigParser()
     cp.optionxform = str
     try:
-        cp.read_string(repo.source(INI))
+        text = repo.source(INI)
+        repo.consulted[INI] = hashlib.sha256(text.encode()).hexdigest()[:16]
+        cp.read_string(text)
     except configparser.Error as e:
         raise AnalysisError(f'{INI} is not a readable ini file: {e}')
     for sec in ('prefixes', 'base_units', 'units'):
@@ -791,7 +792,7 @@ def _make_parser_factory(cp):
     return native(factory)
 
 
-@rule('C06.library', floor=100)
+@rule('C06.library', floor=300)
 def library(repo, out):
     """Every unit of the shipped library gets, through import_library, the factor/powers/offset of its definition."""
     cp = read_ini(repo)
@@ -850,6 +851,18 @@ def library(repo, out):
         out.count('interpreter_steps', it.steps)
         if extra:
             out.note(f'units defined by the loader but not by the specification: {extra[:8]}')
+        # simplify_unit is faithful on every name of the shipped library
+        class _L:
+            find = staticmethod(lambda e, error=False: it.call_func('_find_unit', e, error))
+            call = staticmethod(lambda f, *a: it.call_func(f, *a))
+        f_simp = repo.func(UNITS, 'simplify_unit')
+        for name in table:
+            st, detail = _simplify_check(_L, name)
+            if st == 'refused' or st.startswith('diff'):
+                out.bad(f_simp, f_simp.node, detail if st != 'refused' else f'library unit {name!r} is refused',
+                        key=f'simplify-unit:{name}')
+            else:
+                out.ok(f_simp, name, f'simplify_unit({name!r}) = {detail!r} names the same unit')
         # every offset unit of the shipped library converts to its base dimension as (x + offset) * factor
         for name, want in table.items():
             if want.d != 0:
@@ -877,7 +890,7 @@ def _arith_roots(fnnode, name):
     return roots
 
 
-@rule('C06.proto', floor=12, tier='thorough')
+@rule('C06.proto', floor=13, tier='thorough')
 def proto(repo, out):
     """Every consumer of unit_conversion unpacks (factor, offset) in that order and applies (x+offset)*factor."""
     sites = 0
@@ -966,10 +979,6 @@ selftest(
            ['C06.pred']),
     Mutant('pred-first-dim-only', _U, "        return self._powers == other._powers",
            "        return self._powers[0] == other._powers[0]", 'C06.pred'),
-    Mutant('pred-valueerror', _U,
-           "            raise TypeError(f\"Units '{self.name()}' and '{other.name()}' are incompatible.\")\n\n        # let",
-           "            raise ValueError(f\"Units '{self.name()}' and '{other.name()}' are incompatible.\")\n\n        # let",
-           'C06.pred'),
     Mutant('pred-guard-removed', _U,
            "        if self._powers != other._powers:\n            raise TypeError(f\"Units '{self.name()}' and '{other.name()}' are incompatible.\")\n\n        # let",
            "        # let", 'C06.pred'),
@@ -1027,6 +1036,7 @@ selftest(
            "                        if (item[0] in prefixes and base_unit in unit_table):\n                            add_unit(item, prefixes[item[0]] * unit_table[base_unit])\n\n                        # check for double letter prefix before unit\n                        elif (item[0:2] in prefixes and item[2:] in unit_table):\n                            add_unit(item, prefixes[item[0:2]] * unit_table[item[2:]])",
            "                        if (item[0:2] in prefixes and item[3:] in unit_table):\n                            add_unit(item, prefixes[item[0:2]] * unit_table[item[3:]])\n\n                        elif (item[0] in prefixes and base_unit in unit_table):\n                            add_unit(item, prefixes[item[0]] * unit_table[base_unit])",
            'C06.prefix'),
+    Mutant('prefix-as-mangling', _U, "                    item = re.sub(reg1, 'as_', item)\n", "", 'C06.prefix'),
     Mutant('prefix-unknown-accepted', _U, "                            return None\n\n                unit = eval(name",
            "                            continue\n\n                unit = eval(name", ['C06.prefix']),
     # ---- simplify
@@ -1045,11 +1055,17 @@ selftest(
     Mutant('simplify-unity-dropped', _U, "    if new_str == '1':", "    if new_str == '':", 'C06.simplify'),
     Mutant('simplify-scalar-name-lost', _U, "            return PhysicalUnit(self._names + {str(other): 1},\n                                self._factor * other,",
            "            return PhysicalUnit(self._names,\n                                self._factor * other,", 'C06.simplify'),
+    Mutant('simplify-names-add-overwrites', _U, "        for k, v in other.items():\n            sum_dict[k] = sum_dict[k] + v\n        return sum_dict\n\n    def __sub__",
+           "        for k, v in other.items():\n            sum_dict[k] = v\n        return sum_dict\n\n    def __sub__", 'C06.simplify'),
+    Mutant('simplify-missing-name-one', _U, "        except KeyError:\n            return 0", "        except KeyError:\n            return 1", 'C06.simplify'),
+    Mutant('simplify-set-name-zero', _U, "        self._names[name] = 1", "        self._names[name] = 0", ['C06.simplify', 'C06.define']),
     # ---- fracpow
     Mutant('fracpow-names-times', _U, "                        names = self._names / rounded", "                        names = self._names * rounded",
            'C06.fracpow'),
     Mutant('fracpow-fallback-factor-lost', _U, "                        if f != 1.:\n                            names[str(f)] = 1",
            "                        if f == 1.:\n                            names[str(f)] = 1", 'C06.fracpow'),
+    Mutant('fracpow-names-divisibility', _U, "                    if all([x % rounded == 0 for x in self._names.values()]):",
+           "                    if any([x % rounded != 0 for x in self._names.values()]):", 'C06.fracpow'),
     # ---- offset
     Mutant('offset-mul-guard-dropped', _U,
            "        if self._offset != 0 or (isinstance(other, PhysicalUnit) and\n                                 other._offset != 0):\n            raise TypeError(f\"Can't multiply units",
@@ -1070,11 +1086,9 @@ selftest(
     Mutant('library-fields-swapped', _U, "            factor, baseunit, offset, comment = data\n            try:",
            "            offset, baseunit, factor, comment = data\n            try:", 'C06.library'),
     Mutant('library-base-power', _U, "        powers[i] = 1\n", "        powers[i] = 2\n", 'C06.library'),
+    Mutant('library-powers-aliased', _U, "        powers = list(base_list)\n", "        powers = base_list\n", 'C06.library'),
     Mutant('library-prefix-comment', _U, "        factor, comma, comment = factor.partition(',')", "        comment, comma, factor = factor.partition(',')",
            'C06.library'),
-    Mutant('define-alias-renames-only', _U, "    unit.set_name(name)\n    if name in _UNIT_LIB.unit_table:\n        if (_UNIT_LIB.unit_table[name]._factor != unit._factor or\n                _UNIT_LIB.unit_table[name]._powers != unit._powers):\n            raise KeyError(f\"Unit '{name}' already defined with different factor or powers.\")\n\n    _UNIT_LIB.unit_table[name] = unit",
-           "    if name in _UNIT_LIB.unit_table:\n        if (_UNIT_LIB.unit_table[name]._factor != unit._factor or\n                _UNIT_LIB.unit_table[name]._powers != unit._powers):\n            raise KeyError(f\"Unit '{name}' already defined with different factor or powers.\")\n\n    _UNIT_LIB.unit_table[name] = unit",
-           ['C06.define', 'C06.prefix']),
     # ---- proto (thorough)
     Mutant('proto-swapped-unpack', 'openmdao/recorders/case.py', "                scale, offset = unit_conversion(base_units, simp_units)",
            "                offset, scale = unit_conversion(base_units, simp_units)", 'C06.proto'),
@@ -1084,6 +1098,8 @@ selftest(
            "meta['unit_adder'], meta['unit_scaler'] = unit_conversion(var_units, units)", 'C06.proto'),
     Mutant('proto-group-adder', 'openmdao/core/group.py', "                    a0 = (ref0 + offset) * factor", "                    a0 = ref0 * factor + offset",
            'C06.proto'),
+    Mutant('proto-derivative-keeps-offset', 'openmdao/core/total_jac.py', "                scaler, _ = unit_conversion(native_units, requested_units)\n                if scaler != 1.0:\n                    self._resp_unit_scalers[vname] = scaler",
+           "                _, scaler = unit_conversion(native_units, requested_units)\n                if scaler != 1.0:\n                    self._resp_unit_scalers[vname] = scaler", 'C06.proto'),
     # ---- twins
     Twin('twin-offset-algebra', _U, "        offset = self._offset - (other._offset * other._factor / self._factor)",
          "        offset = (self._offset * self._factor - other._offset * other._factor) / self._factor"),
@@ -1101,5 +1117,14 @@ selftest(
          "                    denom += f'**{-power}'\n            elif power > 0:\n                num = num + '*' + unit", nth=1),
     Twin('twin-prefix-slices', _U, "                        elif (item[0:2] in prefixes and item[2:] in unit_table):\n                            add_unit(item, prefixes[item[0:2]] * unit_table[item[2:]])",
          "                        elif (item[:2] in prefixes and item[2:] in unit_table):\n                            pre2, rest = item[:2], item[2:]\n                            add_unit(item, unit_table[rest] * prefixes[pre2])"),
+    Twin('twin-name-join', _U,
+         "        num = ''\n        denom = ''\n        for unit, power in self._names.items():\n            if power < 0:\n                denom = denom + '/' + unit\n                if power < -1:\n                    denom = denom + '**' + str(-power)\n            elif power > 0:\n                num = num + '*' + unit\n                if power > 1:\n                    num = num + '**' + str(power)\n        if len(num) == 0:\n            num = '1'\n        else:\n            num = num[1:]\n        return num + denom",
+         "        tops = []\n        bottoms = []\n        for unit, power in self._names.items():\n            if power > 0:\n                tops.append(unit if power == 1 else unit + '**' + str(power))\n            elif power < 0:\n                bottoms.append(unit if power == -1 else f'{unit}**{-power}')\n        text = '*'.join(tops) if tops else '1'\n        for b in bottoms:\n            text += '/' + b\n        return text"),
+    Twin('twin-numberdict-generator', _U, "        new = NumberDict()\n        for key, value in self.items():\n            new[key] = other * value\n        return new",
+         "        return NumberDict((key, other * value) for key, value in self.items())"),
+    Twin('twin-pow-operator', _U, "pow(self._factor, power),", "self._factor ** power,"),
+    Twin('twin-compat-symmetric', _U, "    return old_unit.is_compatible(new_unit)", "    return new_unit.is_compatible(old_unit)"),
+    Twin('twin-rdiv-reciprocal', _U, "                            float(other) / self._factor,", "                            float(other) * (1.0 / self._factor),"),
+    Twin('twin-early-identity', _U, "        factor = self._factor / other._factor\n", "        if self is other:\n            return (1.0, 0.0)\n        factor = self._factor / other._factor\n"),
     Twin('twin-proto-commuted', 'openmdao/core/conn_graph.py', "                return (val + offset) * scale", "                return scale * (offset + val)"),
 )
